@@ -2,6 +2,6 @@ SPECIFICATION TSpec
 CONSTANTS
   Base = 1000000
 CONSTRAINT HW
-INVARIANTS Canonical BeliefSound AtMostOneHolder
+INVARIANTS Canonical BeliefSound AtMostOneHolder IdentDistinct
 POSTCONDITION Accepted
 CHECK_DEADLOCK FALSE
